@@ -9,6 +9,9 @@ import numpy as np  # noqa: E402
 BASE = np.array([[2.0, 4.0, 8.0], [16.0, 32.0, 64.0]])
 
 
+FIXED_MASK = np.array([[False, True, False], [False, False, True]])
+
+
 def make_payload(case, grid=None):
     g, f = case["grid"], case["form"]
     if g == "g23":
@@ -34,7 +37,8 @@ def run_case(case):
     inp = fm.Input(name="In")
     out >> inp  # pylint: disable=pointless-statement
     inp.ping()
-    out.push_info(fm.Info(time=day(0), grid=grid, units=case["ou"]))
+    kw = {"mask": FIXED_MASK} if case.get("om") == "fixed" else {}
+    out.push_info(fm.Info(time=day(0), grid=grid, units=case["ou"], **kw))
     inp.exchange_info(fm.Info(time=day(0), grid=grid, units=case["iu"] or None))
     obs = {"res": "ok", "shape": [], "num": 0, "den": 1, "units": "", "masked": False, "alias": ""}
     payload = make_payload(case, grid)
@@ -44,6 +48,8 @@ def run_case(case):
         mag = fm.data.get_magnitude(data)
         obs["shape"] = list(mag.shape)
         obs["masked"] = bool(np.ma.isMaskedArray(mag) and np.ma.getmaskarray(mag).any())
+        if case.get("om") == "fixed" and not np.array_equal(np.ma.getmaskarray(mag)[0], FIXED_MASK):
+            obs["masked"] = False       # not exactly the mask of the metadata
         first = float(np.ma.getdata(mag).ravel()[0])
         fr = Fraction(first / 2.0).limit_denominator(10 ** 6)
         if abs(float(fr) - first / 2.0) > 1e-9 * max(1.0, abs(first)):
